@@ -832,7 +832,8 @@ class Functor(cat.Functor):
             super().__call__(diagram)
         if isinstance(diagram, Ty):
             return self.ob_factory().tensor(*[
-                self.ob[type(diagram)(x)] for x in diagram])
+                self.ob[x if isinstance(x, Ty) else type(diagram)(x)]
+                for x in diagram])
         if isinstance(diagram, Swap):
             return self.ar_factory.swap(
                 self(diagram.left), self(diagram.right))
